@@ -1,4 +1,4 @@
-import Chain33Model.Proofs.C03
+import Chain33Model.Proofs.C03Bytes
 /-!
 C03 — State proofs are complete, sound and crash-free.  Property theorems only (helpers: Proofs/C03.lean).
 
@@ -23,27 +23,33 @@ theorem proof_complete {H : Bytes → Bytes} (hlen : ∀ x, (H x).length = 32) (
   refine ⟨lh, ins, root, e, e1, ?_⟩
   simp [Proof.verify, last32_of_length (hlen (leafEnc k v)), e3]
 
-/-- full byte-level statement of completeness: the *bytes* produced by `Tree.Proof` are accepted by
-`VerifyKVPairProof`. -/
-def ProofCompleteBytes : Prop :=
-  ∀ (H : Bytes → Bytes), (∀ x, (H x).length = 32) → ∀ (t : Node), Hashed H t → ∀ (k v root : Bytes),
-    (t.get k).2 = some v → t.info.hk = some root → root.length = 32 →
-    ∃ lh ins, constructProof t k = .found v lh ins ∧ verifyKVPairProof H root k v (encProof ins) = true
-
-/-- **proof_complete_bytes_partial** — `ProofCompleteBytes` with one added hypothesis: the proto3 decoder reads
-back the inner nodes that `encProof` wrote (`decodeProof (encProof ins) = some ins`).  The round trip itself is
-checked byte-for-byte on every generated proof by the differential run (Go `proto.Unmarshal` vs `decodeProof`),
-and by the `example` below on a concrete proof; a general Lean proof of the round trip is left open. -/
-theorem proof_complete_bytes_partial {H : Bytes → Bytes} (hlen : ∀ x, (H x).length = 32) (t : Node)
-    (hh : Hashed H t) (k v root : Bytes) (hg : (t.get k).2 = some v) (hr : t.info.hk = some root)
-    (hroot : root.length = 32)
-    (hrt : ∀ lh ins, constructProof t k = .found v lh ins → decodeProof (encProof ins) = some ins) :
+/-- **proof_complete_bytes** — byte level: the *bytes* `Tree.Proof` / `GetKVPairProof` produce for a key that
+`get` finds are accepted by `VerifyKVPairProof` (proto3 `Unmarshal` included) against the 32-byte root together
+with the stored value.  `Fits t` states that the tree fits the Go types (int32 height/size, node keys shorter than
+2^32 bytes); the proto3 round trip `decodeProof (encProof ins) = some ins` is proved (`decodeProof_encProof`). -/
+theorem proof_complete_bytes {H : Bytes → Bytes} (hlen : ∀ x, (H x).length = 32) (t : Node)
+    (hh : Hashed H t) (hfit : Fits t) (k v root : Bytes) (hg : (t.get k).2 = some v)
+    (hr : t.info.hk = some root) (hroot : root.length = 32) :
     ∃ lh ins, constructProof t k = .found v lh ins ∧ verifyKVPairProof H root k v (encProof ins) = true := by
   obtain ⟨lh, ins, root', e, e1, e2⟩ := proof_complete hlen t hh k v hg
   rw [hr] at e1; cases e1
   refine ⟨lh, ins, e, ?_⟩
   rw [last32_of_length hroot] at e2
-  simp [verifyKVPairProof, hrt lh ins e, e2]
+  simp [verifyKVPairProof, decodeProof_encProof ins (constructProof_norm t hfit k v lh ins e), e2]
+
+/-- non-vacuity of `Hashed` / `Fits` / the root-length hypothesis: a two-leaf tree hashed without prefix, for any
+hash function with 32-byte outputs. -/
+example (H : Bytes → Bytes) (hlen : ∀ x, (H x).length = 32) :
+    let l : Node := .leaf [97] [1] ⟨some (H (leafEnc [97] [1])), true⟩
+    let r : Node := .leaf [98] [2] ⟨some (H (leafEnc [98] [2])), true⟩
+    let root := H (innerEnc (H (leafEnc [97] [1])) (H (leafEnc [98] [2])) 1 2)
+    let t : Node := .inner [98] 1 2 l r ⟨some root, true⟩
+    Hashed H t ∧ Fits t ∧ root.length = 32 ∧ (t.get [98]).2 = some [2] := by
+  intro l r root t
+  refine ⟨⟨⟨_, rfl, last32_of_length (hlen _)⟩, ⟨_, rfl, last32_of_length (hlen _)⟩, _, _, _, rfl, rfl, rfl,
+    last32_of_length (hlen _)⟩, ?_, hlen _, ?_⟩
+  · refine ⟨?_, ?_, by decide, by decide, ?_⟩ <;> intro h e <;> simp at e <;> subst e <;> simp [hlen, root]
+  · simp [t, r, Node.get, cmpB]
 
 /-- **proof_sound** — one proof (the same bytes) cannot be accepted for two different (key, value) pairs against
 the same root, unless the hash function has a collision.  With completeness: the proof produced for `(k, v)`
